@@ -1,10 +1,193 @@
-/- Line-protocol driver for C16 (stub until the property's models exist). -/
+/-
+  Line-protocol driver for C16 (SDR record parsing).
+
+    spec full    <49 ints> <id>      ->  ok <hex> <kind> <fields>      | bad-wf | bad-op
+    spec compact <22 ints> <id>
+    spec event   <12 ints> <id>
+    spec fru     <11 ints> <id>
+    spec mc      <9 ints>  <id>
+    spec conf    <10 ints> <guid: n,n,…>
+    spec opaque  <id> <version> <type> <hex body>
+         the specification's encoder and view (Spec.Sdr); ints in structure order.
+    parse <acc><rate><mod><idtype><bcd><six> <hex>
+                                     ->  ok <kind> <fields> | <extra fields>   | <error tag>
+         the model (SdrParse.parseSdr) with the six variant flags (1 = as shipped).
+
+  <id> ::= u:<n,…> | b:<n,…> (digits, two per byte) | s:<n,…> (6-bit codes) | a:<n,…>   (`-` = empty)
+  <fields> ::= name=value …   value ::= nat | int | [n,…]
+-/
 import PyIpmi.Base.Proto
-open PyIpmi.Proto
+import PyIpmi.Model.SdrParse
+import PyIpmi.Spec.SdrFormat
+open PyIpmi PyIpmi.Proto PyIpmi.Spec.Sdr
+
+def showVal : Val → String
+  | .nat n => toString n
+  | .int z => toString z
+  | .list l => "[" ++ ",".intercalate (l.map toString) ++ "]"
+
+def showFields (fs : Fields) : String :=
+  " ".intercalate (fs.map fun p => p.1 ++ "=" ++ showVal p.2)
+
+def kindName : Kind → String
+  | .full => "SdrFullSensorRecord"
+  | .compact => "SdrCompactSensorRecord"
+  | .eventOnly => "SdrEventOnlySensorRecord"
+  | .fruLocator => "SdrFruDeviceLocator"
+  | .mcLocator => "SdrManagementControllerDeviceLocator"
+  | .mcConfirmation => "SdrManagementControllerConfirmationRecord"
+  | .oem => "SdrOEMSensorRecord"
+  | .unknown => "SdrUnknownSensorRecord"
+
+def pairUp : List Nat → Option (List (Nat × Nat))
+  | [] => some []
+  | [_] => none
+  | a :: b :: rest => (pairUp rest).map ((a, b) :: ·)
+
+def parseId (s : String) : Option IdString :=
+  match s.splitOn ":" with
+  | [k, d] =>
+    match parseNatList d with
+    | none => none
+    | some l =>
+      if k == "u" then some (.unicode l)
+      else if k == "b" then (pairUp l).map .bcdPlus
+      else if k == "s" then some (.sixBit l)
+      else if k == "a" then some (.ascii8 l)
+      else none
+  | _ => none
+
+def nat? (z : Int) : Option Nat := if 0 ≤ z then some z.toNat else none
+
+def answer (wf : Bool) (bytes : List Nat) (k : Kind) (view : Fields) : String :=
+  if !wf then "bad-wf" else s!"ok {toHex bytes} {kindName k} {showFields view}"
+
+def specFull (a : List Int) (ids : IdString) : Option String :=
+  match a with
+  | rid :: ver :: oid :: ch :: lun :: num :: eid :: einst :: ini :: cap :: st :: et :: am :: dm ::
+    rm :: fmt :: rate :: mod :: pct :: bu :: mu :: lin :: m :: tol :: b :: acc :: accx :: dir ::
+    rexp :: bexp :: af :: nom :: nmax :: nmin :: smax :: smin :: unr :: ucr :: unc :: lnr :: lcr ::
+    lnc :: ph :: nh :: oem :: [] => do
+    let r : FullSensor := {
+      recordId := ← nat? rid, version := ← nat? ver, ownerId := ← nat? oid, channel := ← nat? ch,
+      ownerLun := ← nat? lun, number := ← nat? num, entityId := ← nat? eid,
+      entityInstance := ← nat? einst, initBits := ← nat? ini, capabilities := ← nat? cap,
+      sensorType := ← nat? st, eventType := ← nat? et, assertionMask := ← nat? am,
+      deassertionMask := ← nat? dm, readingMask := ← nat? rm, analogFormat := ← nat? fmt,
+      rateUnit := ← nat? rate, modifierUnit := ← nat? mod, percentage := ← nat? pct,
+      baseUnit := ← nat? bu, modUnit := ← nat? mu, linearization := ← nat? lin, m := m,
+      tolerance := ← nat? tol, b := b, accuracy := ← nat? acc, accuracyExp := ← nat? accx,
+      sensorDirection := ← nat? dir, rExp := rexp, bExp := bexp, analogFlags := ← nat? af,
+      nominal := ← nat? nom, normalMax := ← nat? nmax, normalMin := ← nat? nmin,
+      sensorMax := ← nat? smax, sensorMin := ← nat? smin, unr := ← nat? unr, ucr := ← nat? ucr,
+      unc := ← nat? unc, lnr := ← nat? lnr, lcr := ← nat? lcr, lnc := ← nat? lnc,
+      posHysteresis := ← nat? ph, negHysteresis := ← nat? nh, oem := ← nat? oem, idString := ids }
+    pure (answer r.wf r.encode .full r.view)
+  | _ => none
+
+def specCompact (a : List Int) (ids : IdString) : Option String :=
+  match a with
+  | [rid, ver, oid, ch, lun, num, eid, einst, ini, cap, st, et, am, dm, rm, u1, u2, u3, rs, ph, nh, oem] => do
+    let r : CompactSensor := {
+      recordId := ← nat? rid, version := ← nat? ver, ownerId := ← nat? oid, channel := ← nat? ch,
+      ownerLun := ← nat? lun, number := ← nat? num, entityId := ← nat? eid,
+      entityInstance := ← nat? einst, sensorInit := ← nat? ini, capabilities := ← nat? cap,
+      sensorType := ← nat? st, eventType := ← nat? et, assertionMask := ← nat? am,
+      deassertionMask := ← nat? dm, readingMask := ← nat? rm, units1 := ← nat? u1,
+      units2 := ← nat? u2, units3 := ← nat? u3, recordSharing := ← nat? rs,
+      posHysteresis := ← nat? ph, negHysteresis := ← nat? nh, oem := ← nat? oem, idString := ids }
+    pure (answer r.wf r.encode .compact r.view)
+  | _ => none
+
+def specEvent (a : List Int) (ids : IdString) : Option String :=
+  match a with
+  | [rid, ver, oid, ch, lun, num, eid, einst, st, et, rs, oem] => do
+    let r : EventOnly := {
+      recordId := ← nat? rid, version := ← nat? ver, ownerId := ← nat? oid, channel := ← nat? ch,
+      ownerLun := ← nat? lun, number := ← nat? num, entityId := ← nat? eid,
+      entityInstance := ← nat? einst, sensorType := ← nat? st, eventType := ← nat? et,
+      recordSharing := ← nat? rs, oem := ← nat? oem, idString := ids }
+    pure (answer r.wf r.encode .eventOnly r.view)
+  | _ => none
+
+def specFru (a : List Int) (ids : IdString) : Option String :=
+  match a with
+  | [rid, ver, aa, fid, lp, ch, dt, dtm, eid, einst, oem] => do
+    let r : FruLocator := {
+      recordId := ← nat? rid, version := ← nat? ver, accessAddress := ← nat? aa,
+      fruDeviceId := ← nat? fid, logicalPhysical := ← nat? lp, channelNumber := ← nat? ch,
+      deviceType := ← nat? dt, deviceTypeModifier := ← nat? dtm, entityId := ← nat? eid,
+      entityInstance := ← nat? einst, oem := ← nat? oem, idString := ids }
+    pure (answer r.wf r.encode .fruLocator r.view)
+  | _ => none
+
+def specMc (a : List Int) (ids : IdString) : Option String :=
+  match a with
+  | [rid, ver, sa, ch, psn, dc, eid, einst, oem] => do
+    let r : McLocator := {
+      recordId := ← nat? rid, version := ← nat? ver, slaveAddress := ← nat? sa,
+      channelNumber := ← nat? ch, powerStateNotification := ← nat? psn,
+      deviceCapabilities := ← nat? dc, entityId := ← nat? eid, entityInstance := ← nat? einst,
+      oem := ← nat? oem, idString := ids }
+    pure (answer r.wf r.encode .mcLocator r.view)
+  | _ => none
+
+def specConf (a : List Int) (guid : List Nat) : Option String :=
+  match a with
+  | [rid, ver, sa, did, ch, f1, f2, iv, mid, pid] => do
+    let r : McConfirmation := {
+      recordId := ← nat? rid, version := ← nat? ver, slaveAddress := ← nat? sa,
+      deviceId := ← nat? did, channelRevision := ← nat? ch, firmwareRevision1 := ← nat? f1,
+      firmwareRevision2 := ← nat? f2, ipmiVersion := ← nat? iv, manufacturerId := ← nat? mid,
+      productId := ← nat? pid, guid := guid }
+    pure (answer r.wf r.encode .mcConfirmation r.view)
+  | _ => none
+
+def flag (c : Char) : Bool := c == '1'
+
+def parseVariant (s : String) : Option SdrParse.Variant :=
+  match s.toList with
+  | [a, b, c, d, e, f] => some ⟨flag a, flag b, flag c, flag d, flag e, flag f⟩
+  | _ => none
 
 def handleC16 (line : String) : String :=
   match tokens line with
   | ["ping"] => "pong"
+  | ["tables"] => s!"{Gen.SdrTables.typeIndex} {Gen.SdrTables.dispatchDefault} " ++
+      ",".intercalate (Gen.SdrTables.dispatch.map fun p => s!"{p.1}:{p.2}")
+  | "spec" :: "opaque" :: rid :: ver :: ty :: [h] =>
+    match rid.toNat?, ver.toNat?, ty.toNat?, ofHex h with
+    | some rid, some ver, some ty, some body =>
+      let r : Opaque := ⟨rid, ver, ty, body⟩
+      answer r.wf r.encode (kindOfType ty) r.view
+    | _, _, _, _ => "bad-op"
+  | "spec" :: "conf" :: rest =>
+    match rest.reverse with
+    | g :: ints =>
+      match ints.reverse.mapM parseInt, parseNatList g with
+      | some a, some guid => (specConf a guid).getD "bad-op"
+      | _, _ => "bad-op"
+    | _ => "bad-op"
+  | "spec" :: ty :: rest =>
+    match rest.reverse with
+    | ids :: ints =>
+      match ints.reverse.mapM parseInt, parseId ids with
+      | some a, some s =>
+        ((if ty == "full" then specFull a s
+          else if ty == "compact" then specCompact a s
+          else if ty == "event" then specEvent a s
+          else if ty == "fru" then specFru a s
+          else if ty == "mc" then specMc a s
+          else none).getD "bad-op")
+      | _, _ => "bad-op"
+    | _ => "bad-op"
+  | ["parse", fl, h] =>
+    match parseVariant fl, ofHex h with
+    | some v, some bs =>
+      match SdrParse.parseSdr v bs with
+      | .ok p => s!"ok {kindName p.kind} {showFields p.fields} | {showFields p.extra}"
+      | e => e.tag
+    | _, _ => "bad-op"
   | _ => "bad-op"
 
 def main : IO Unit := do
